@@ -30,6 +30,7 @@
 
 #include <exception>
 #include <functional>
+#include <memory>
 #include <stdexcept>
 #include <string>
 #include <typeinfo>
@@ -587,8 +588,15 @@ struct History {
     for (unsigned i = 0; i < 2; i++) {
       if (!ref[i].ok) continue;
       FILE* f = mem_stream(ref[i].bytes, ref[i].bytes.size());
-      Image l(f);
+      std::unique_ptr<Image> lp;
+      try {
+        lp.reset(new Image(f));
+      } catch (const std::exception&) {
+      }
       fclose(f);
+      // a rejected or altered reload is the direct round trip's finding (roundtrip:saved-*), not a history one
+      if (!lp || !snapshot(*lp).same_as(w)) continue;
+      Image& l = *lp;
       check("loaded", fmt("Image(FILE*) of the saved %s", FMTS[i].n), l, true);
       Image x(w.w + 2, w.h + 1, !w.alpha, w.cw == 8 ? 32 : 8);
       x = l;
@@ -633,12 +641,21 @@ static void run_save_case(const Case& k, size_t maxprefix) {
     const Saved& s = ref[i];
     // the other writers: save(FILE*), save(const char* filename), save(const std::string& filename)
     uint8_t via_stream = alt_save(s, [&]() { return save_via_stream(im, f.f); });
+    // the path already holds a longer, unrelated file: saving must replace it, not append to or overlay it
     string path = tmp_path("save");
+    auto prefill = [&]() {
+      int fd = open(path.c_str(), O_WRONLY | O_CREAT | O_TRUNC, 0600);
+      if (fd < 0) harness_error("open save temp");
+      string junk(s.bytes.size() + 37, 'J');
+      write_all(fd, junk.data(), junk.size());
+      close(fd);
+    };
+    prefill();
     uint8_t via_cpath = alt_save(s, [&]() {
       im.save(path.c_str(), f.f);
       return read_file(path);
     });
-    unlink(path.c_str());
+    unlink(path.c_str());  // ... and the other entry point creates the file
     uint8_t via_spath = alt_save(s, [&]() {
       im.save(path, f.f);
       return read_file(path);
@@ -662,7 +679,13 @@ static void run_save_case(const Case& k, size_t maxprefix) {
   }
   if (k.flags & F_HISTORY) {
     History h{k, im, ref};
-    h.run();
+    try {
+      h.run();
+    } catch (const std::exception& e) {
+      // copying, converting or re-reading a valid image must not throw
+      C->violation("history:unexpected-exception", fmt("%s: %s", demangle(typeid(e).name()).c_str(), e.what()),
+                   fmt("%s after route %u", k.name.c_str(), h.route));
+    }
   }
 }
 
